@@ -67,7 +67,7 @@ class Engine(ExprMixin, ExprMixin2, StmtMixin, LoopMixin, CallMixin, CompMixin, 
         self.enums = {}            # enum class -> member names (closed world)
         self.heap_axioms = []      # callables(engine, state) -> [z3 facts about the initial heap]
         self.auto_declare_fields()
-        self.ast_field_names = {f for fs in repo.live["ast_fields"].values() for f in fs} | {"lineno", "col_offset", "kind"}
+        self.ast_field_names = {f for fs in repo.live["ast_fields"].values() for f in fs} | {"lineno", "col_offset", "end_lineno", "end_col_offset", "kind", "type_comment"}
 
     def auto_declare_fields(self):
         """fields a class assigns as `self.X = ...` in its own methods exist on its instances: declare those the sidecar does not type
@@ -262,6 +262,10 @@ class Engine(ExprMixin, ExprMixin2, StmtMixin, LoopMixin, CallMixin, CompMixin, 
             self.obligations.append(Obligation(f"{c.qual}:exc:unexpected-{exc}#path{j}", "exc", f.hyps(), z3.BoolVal(False), where=c.qual,
                                                meta={"clause": f"raises only {sorted(set(c.raises) | set(c.may_raise))}", "trail": f.trail}))
             return
+        if allowed in c.may_raise and c.may_raise_if:
+            cond = self.spec_eval(c.may_raise_if, entry.fork())
+            self.obligations.append(Obligation(f"{c.qual}:exc:{exc}-only-if#path{j}", "exc", f.hyps(), cond, where=c.qual,
+                                               meta={"clause": f"raises only if {c.may_raise_if}", "trail": f.trail}))
         if allowed in c.raises and c.exact_raises:
             self.obligations.append(Obligation(f"{c.qual}:exc:{exc}-only-when#path{j}", "exc", f.hyps(), raised_conds[allowed], where=c.qual,
                                                meta={"clause": c.raises[allowed], "trail": f.trail}))
@@ -301,10 +305,11 @@ class Engine(ExprMixin, ExprMixin2, StmtMixin, LoopMixin, CallMixin, CompMixin, 
                 continue
             if comp == "list.nodeowned":
                 # ghost flag: monotone; only objects this call allocated, or already node-owned ones, may be (re)flagged
+                # the flag is only ever set, never cleared (what may be flagged is constrained by the `private(...)` postconditions)
                 if ref is None:
                     goal = z3.BoolVal(False)
                 else:
-                    goal = z3.Or(ref >= entry.alloc_ptr(), z3.Select(entry.comp("list.nodeowned"), ref), z3.Select(own_final, ref))
+                    goal = z3.Or(ref >= entry.alloc_ptr(), z3.Implies(z3.Select(entry.comp("list.nodeowned"), ref), z3.Select(own_final, ref)))
             elif ref is None:
                 # a wholesale havoc "except cond" (from a callee's frame): allowed when our own frame has the same exception
                 goal = z3.BoolVal(any(a[0] == comp and a[1] is None and a[2] is not None for a in allowed) and wcond is not None)
